@@ -13,6 +13,8 @@ property directly on the objects the real code returned (computed during the sam
 """
 from __future__ import annotations
 
+import gc
+import json
 import os
 import re
 import random
@@ -37,6 +39,28 @@ ERR_NAMES = [
 ]
 
 _ctr = [0]
+_cleanups = [0]
+
+
+def mixin_bases(parent, code):
+    """bases of a new render class: its single render base plus fresh non-render mix-ins — `code % 3` of them
+    before it, `code // 3 % 3` after it; `code // 9`: 0 plain `class Mixin: pass`, 1 mix-ins with a base class of
+    their own, 2 mix-ins deriving from two plain classes. The tree of render classes is unaffected."""
+    if not code:
+        return (parent,)
+    nb, na, style = code % 3, code // 3 % 3, code // 9
+
+    def mixin():
+        _ctr[0] += 1
+        if style == 0:
+            bases = ()
+        elif style == 1:
+            bases = (type(f"MB{_ctr[0]}", (), {}),)
+        else:
+            bases = (type(f"MB{_ctr[0]}a", (), {}), type(f"MB{_ctr[0]}b", (), {}))
+        return type(f"M{_ctr[0]}", bases, {"mixed_in": True})
+
+    return tuple(mixin() for _ in range(nb)) + (parent,) + tuple(mixin() for _ in range(na))
 
 
 def _body():
@@ -169,7 +193,7 @@ def tok_opt(v, f=str):
 def cmd_tokens(c) -> str:
     op = c[0]
     if op == "dc":
-        return f"dc {c[1]} {tok_opt(c[2], tok_list)}"
+        return f"dc {c[1]} {tok_opt(c[2], tok_list)} {c[3] if len(c) > 3 else 0}"
     if op == "mk":
         return f"mk {c[1]} {tok_opt(c[2])} {tok_list(c[3], tok_ns)}"
     if op == "upn":
@@ -243,6 +267,11 @@ class World:
     """A class forest made at run time + the RenderArgs objects met so far (by identity)."""
 
     def __init__(self):
+        # let the classes of finished histories die: every live subclass of Renderable makes a negative
+        # `issubclass(mixin, Renderable)` (ABCMeta walks all subclasses) slower
+        _cleanups[0] += 1
+        if _cleanups[0] % 100 == 0:
+            gc.collect()
         self.classes = [Renderable]
         self.nscls = {0: None}  # class index -> namespace class (or None)
         self.defaults = {0: None}
@@ -315,7 +344,7 @@ class World:
         if op == "dc":
             _ctr[0] += 1
             parent = self.classes[c[1]]
-            cls = type(f"C{_ctr[0]}", (parent,), _body())
+            cls = type(parent)(f"C{_ctr[0]}", mixin_bases(parent, c[3] if len(c) > 3 else 0), _body())
             ci = len(self.classes)
             self.classes.append(cls)
             self.parent[ci] = c[1]
@@ -417,6 +446,9 @@ class World:
         if isinstance(interned, dict):
             for cls in self.classes[1:]:
                 interned.pop(cls, None)
+        # let the classes of this history die: every live subclass of Renderable makes a negative
+        # `issubclass(mixin, Renderable)` (ABCMeta walks all subclasses) slower
+        _NAME_POOL.clear()
 
 
 # --------------------------------------------------------------------------------------
@@ -872,6 +904,13 @@ class DWorld:
 
 
 def dreplay(k, cmds, with_oracle=True):
+    try:
+        return _dreplay(k, cmds, with_oracle)
+    finally:
+        _NAME_POOL.clear()
+
+
+def _dreplay(k, cmds, with_oracle=True):
     w = DWorld(k)
     out, problems = [], []
     for n, c in enumerate(cmds):
@@ -990,7 +1029,10 @@ class Gen:
         args = None
         if rng.random() < 0.65:
             args = [rng.choice([0, 0, 1]) for _ in range(rng.choice([1, 1, 2, 3]))]
-        self.emit(["dc", parent, args])
+        mix = 0
+        if rng.random() < 0.4:  # non-render mix-ins before and/or after the render base
+            mix = rng.choice([1, 1, 2, 3, 4, 6, 5]) + 9 * rng.choice([0, 0, 1, 2])
+        self.emit(["dc", parent, args, mix])
 
     def def_sub(self):
         """class Sub(<some class of a namespace-class family>): pass"""
@@ -1191,7 +1233,8 @@ def exhaustive_histories():
     pasts (nothing interned / all defaults interned / default-valued but not shared objects around);
     then every constructor call over (class, init in every object, up to two namespaces out of five)
     and every convert / update / | on every object."""
-    forest = [["dc", 0, [0]], ["dc", 1, None], ["dc", 2, [0]], ["dc", 0, [0]], ["ds", 1, 0, 1], ["ds", 1, 1, 2]]
+    # A(Renderable, Mixin); B(Mixin, A); C(Mixin(MBase), B, Mixin(MBase)); X(Mixin, Mixin, Renderable)
+    forest = [["dc", 0, [0], 3], ["dc", 1, None, 1], ["dc", 2, [0], 13], ["dc", 0, [0], 2], ["ds", 1, 0, 1], ["ds", 1, 1, 2]]
     A0, A1, C0, C1, X0 = [1, [0]], [1, [1]], [3, [0]], [3, [1]], [4, [0]]
     AL, CD = [1, ["L0"]], [3, ["D1"]]   # unhashable field values
     pasts = [
@@ -1289,6 +1332,7 @@ def gen_def(rng: random.Random):
             c = ["inst", i, [rng.choice([0, 1, 5]) for _ in range(nv)], [[j, rng.choice([3, 4])] for j in fs]]
         cmds.append(c)
         w.exec(c)
+    _NAME_POOL.clear()
     return k, cmds
 
 
@@ -1331,6 +1375,16 @@ def metaclass_probes():
     return out
 
 
+def pack(d):
+    """case data is kept as one JSON string: thousands of nested lists would make every garbage collection
+    (needed to let the classes of finished histories die) scan the whole run"""
+    return json.dumps(d)
+
+
+def unpack(d):
+    return json.loads(d) if isinstance(d, str) else d
+
+
 def lean_str(s: str) -> str:
     return '"' + s.replace("\\", "\\\\").replace('"', '\\"') + '"'
 
@@ -1347,7 +1401,7 @@ class C16(Property):
         "RenderArgs itself, not subclasses of RenderArgs (each has its own interning table)",
     ]
     quick_cases = 6000
-    thorough_cases = 60000
+    thorough_cases = 45000
 
     def __init__(self):
         self._problems: dict[str, list] = {}
@@ -1416,24 +1470,25 @@ class C16(Property):
 
     # -- generator --------------------------------------------------------------------
     def generate(self, rng: random.Random, tier: str):
-        ex = list(exhaustive_histories())
+        ex = [json.dumps(h) for h in exhaustive_histories()]  # strings: invisible to the garbage collector
         if tier == "quick":
             ex = ex[-4:] + rng.sample(ex[:-4], 700)
-        for cmds in ex:
-            yield Case(run_line(cmds), {"cmds": cmds}, "exhaustive", True)
+        for h in ex:
+            cmds = json.loads(h)
+            yield Case(run_line(cmds), pack({"cmds": cmds}), "exhaustive", True)
         while True:
             if rng.random() < 0.12:
                 k, cmds = gen_def(rng)
-                yield Case(def_line(k, cmds), {"k": k, "cmds": cmds}, "def", len(cmds) > 2)
+                yield Case(def_line(k, cmds), pack({"k": k, "cmds": cmds}), "def", len(cmds) > 2)
                 continue
             g = Gen(rng)
             cmds = g.history(rng.choice([6, 12, 20, 30, 45]))
             kind = "run-small" if len(cmds) < 15 else "run"
-            yield Case(run_line(cmds), {"cmds": cmds}, kind, sum(1 for c in cmds if c[0] != "dc") >= 3)
+            yield Case(run_line(cmds), pack({"cmds": cmds}), kind, sum(1 for c in cmds if c[0] != "dc") >= 3)
 
     # -- implementation ---------------------------------------------------------------
     def impl(self, case: Case) -> str:
-        d = case.data
+        d = unpack(case.data)
         if case.line.startswith("def "):
             out, problems = dreplay(d["k"], d["cmds"])
         else:
@@ -1445,7 +1500,7 @@ class C16(Property):
     def oracle(self, case: Case, impl_result: str):
         problems = self._problems.pop(case.key(), None)
         if problems is None:
-            d = case.data
+            d = unpack(case.data)
             _, problems = dreplay(d["k"], d["cmds"]) if case.line.startswith("def ") else replay(d["cmds"])
         if problems:
             key, what = problems[0]
